@@ -533,6 +533,8 @@ class FuncTypes:
 
     def _bind(self, tgt: ast.expr, t: T, env: Dict[str, T]) -> None:
         if isinstance(tgt, ast.Name):
+            for k in [k for k in env if k.startswith(tgt.id + ".") or k.startswith(tgt.id + "[")]:
+                del env[k]
             env[tgt.id] = t
         elif isinstance(tgt, (ast.Tuple, ast.List)):
             inner = strip_opt(t) if isinstance(t, Opt) else t
@@ -971,8 +973,24 @@ class FuncTypes:
 
 
 def _narrow_key(e: ast.AST) -> Optional[str]:
-    """Stable key for a narrowable reference: ``x`` or ``x.a.b``."""
-    return dotted_of(e)
+    """Stable key for a narrowable reference: ``x``, ``x.a.b``, ``x.a[0].b``, ``x[-1]``
+    (subscripts with a constant index only)."""
+    if isinstance(e, ast.Name):
+        return e.id
+    if isinstance(e, ast.Attribute):
+        b = _narrow_key(e.value)
+        return None if b is None else f"{b}.{e.attr}"
+    if isinstance(e, ast.Subscript):
+        b = _narrow_key(e.value)
+        if b is None:
+            return None
+        sl = e.slice
+        if isinstance(sl, ast.Constant) and isinstance(sl.value, (int, str)):
+            return f"{b}[{sl.value!r}]"
+        if isinstance(sl, ast.UnaryOp) and isinstance(sl.op, ast.USub) and isinstance(sl.operand, ast.Constant) and isinstance(sl.operand.value, int):
+            return f"{b}[-{sl.operand.value}]"
+        return None
+    return None
 
 
 def _always_exits(body: List[ast.stmt]) -> bool:
